@@ -2,6 +2,13 @@
 import json
 
 CLAIMED = {
+    "C20": {
+        "level": "exploration",
+        "text": "Seeded search over evaluation histories against the interpreter-wide expression stack (valid evaluations, rejected inputs that leave debris, evaluations raising mid-way, repeats, validator calls, create_config over real NetCDF climatology files); every value is compared bitwise with an AST evaluator, create_config spans with a grid-cell model (rtol 1e-9). Sampling, not proof.",
+        "ref": "DESIGN.md section 3 (C20)",
+        "note": "Trusts the AST evaluator and the cell-statistics model; exprStack is cleared at scenario start to stand for a fresh interpreter; only unambiguous validator tokens; bounding boxes contain a valid cell.",
+        "technique": "deterministic simulation: seeded operation histories (incl. rejected operations as the fault) over shared module state, file-backed climatology, reference-model oracle",
+    },
     "C19": {
         "level": "exploration",
         "text": "Seeded search over store operation histories (save with all flag/filter combinations, compute_aggregate in any position, repeated saves) on a PandasStore built directly on a faulty, partially windowed stream run with CF-hostile stream ids, under the dirty allocator; every frame is compared with a model built from the messages the store consumed. Sampling, not proof.",
